@@ -145,6 +145,7 @@ fn main() {
             .map(|a| a.iter().map(|v| v.as_str().unwrap_or("").to_string()).collect())
             .unwrap_or_else(|| vec!["vm".into(), "wasm".into()]);
         set_src_path(case.get("path").and_then(|p| p.as_str()));
+        set_device_sample_rate(case.get("sr").and_then(|p| p.as_u64()));
         let mut res = json!({"id": case["id"]});
         if case["typecheck"].as_bool().unwrap_or(false) {
             res["typecheck"] = json!(typecheck_verdict(case["src"].as_str().unwrap_or(""), case["sched"].as_bool().unwrap_or(false)));
